@@ -129,22 +129,30 @@ func main() {
 	out := flag.String("out", "traces.ndjson", "")
 	work := flag.String("work", ".", "")
 	reps := flag.Int("reps", 1, "")
+	slow := flag.Int("slow", 6000, "delay (ms) of the one slow-daemon schedule; 0 = none")
 	flag.Parse()
 	w := vio.Create(*out)
 	defer w.Close()
 	self, _ := os.Executable()
 	run := 0
 	for rep := 0; rep < *reps; rep++ {
-		for _, delay := range []int{0, 50} {
+		delays := []int{0, 50}
+		if rep == 0 && *slow > 0 {
+			delays = append(delays, *slow) // "however slowly the daemon reaches Done()"
+		}
+		for _, delay := range delays {
 			for _, pause := range []int{0, 300} {
 				for _, nl := range []int{1, 3} {
+					if delay > 1000 && (pause != 0 || nl != 1) {
+						continue
+					}
 					run++
 					evfile := fmt.Sprintf("%s/daemon_events_%d.ndjson", *work, run)
 					os.Remove(evfile)
 					cmd := exec.Command(self)
 					cmd.Env = append(os.Environ(), "VERIF_ROLE=caller", "VERIF_EVENT_FILE="+evfile,
 						fmt.Sprintf("VERIF_DAEMON_DELAY_MS=%d", delay), fmt.Sprintf("VERIF_LAUNCHER_PAUSE_MS=%d", pause),
-						fmt.Sprintf("VERIF_NLAUNCH=%d", nl), "VERIF_DAEMON_LIFE_MS=12000")
+						fmt.Sprintf("VERIF_NLAUNCH=%d", nl), fmt.Sprintf("VERIF_DAEMON_LIFE_MS=%d", 12000+delay))
 					cmd.Start()
 					callerPid := cmd.Process.Pid
 					done := make(chan struct{})
@@ -152,7 +160,7 @@ func main() {
 					hung := false
 					select {
 					case <-done:
-					case <-time.After(8 * time.Second): // Done() happens within ~0.4 s in every schedule
+					case <-time.After(time.Duration(8000+delay) * time.Millisecond): // Done() happens within ~0.4 s + delay
 						hung = true
 						cmd.Process.Kill()
 						<-done
